@@ -127,3 +127,10 @@ Theorem C10_call_kw_holding_unmanaged_kept :
   In (k, t) (c_kws c) -> has_unm t = true -> find_field k fs = Some f -> fd_default f = true -> In (CKw k (RKeep t)) (call_result F c fs).
 Proof. exact call_kw_holding_unmanaged_kept. Qed.
 Print Assumptions C10_call_kw_holding_unmanaged_kept.
+
+(* an `in` snapshot whose previous value is no list display and holds user-controlled members is never replaced (F-86; Model/CollReplace.v) *)
+From V Require Model.CollReplace Proofs.CollReplaceProofs.
+Theorem C10_coll_replace_unm_frozen :
+  forall (trim is_set : bool) (old tested : list Z), CollReplace.coll_replace true trim is_set old tested = CollReplace.NoChange.
+Proof. exact CollReplaceProofs.unm_frozen. Qed.
+Print Assumptions C10_coll_replace_unm_frozen.
